@@ -1,3 +1,3 @@
-SPECIFICATION Spec
+SPECIFICATION TSpec
 POSTCONDITION TraceAccepted
 CHECK_DEADLOCK FALSE
